@@ -35,21 +35,26 @@ import (
 	"time"
 
 	"github.com/AdguardTeam/AdGuardHome/internal/aghnet"
+	"github.com/AdguardTeam/AdGuardHome/internal/aghtest"
 	"github.com/AdguardTeam/AdGuardHome/internal/filtering"
 	"github.com/AdguardTeam/AdGuardHome/internal/querylog"
 	"github.com/AdguardTeam/dnsproxy/proxy"
+	"github.com/AdguardTeam/dnsproxy/upstream"
 	"github.com/AdguardTeam/golibs/logutil/slogutil"
 	"github.com/AdguardTeam/golibs/timeutil"
 	"github.com/miekg/dns"
 )
 
 // demoR4Writer starts POST /control/access/set and returns once it waits for
-// s.serverLock, i.e. once new readers are refused.
+// s.serverLock, i.e. once new readers are refused, or once it has finished
+// (when nobody holds the lock at this point).
 func demoR4Writer(t *testing.T, s *Server, once *sync.Once, wg *sync.WaitGroup) {
 	once.Do(func() {
+		finished := make(chan struct{})
 		wg.Add(1)
 		go func() {
 			defer wg.Done()
+			defer close(finished)
 
 			body := `{"allowed_clients":[],"disallowed_clients":["10.9.8.7"],"blocked_hosts":[]}`
 			r := httptest.NewRequest(http.MethodPost, "/control/access/set", strings.NewReader(body))
@@ -60,6 +65,13 @@ func demoR4Writer(t *testing.T, s *Server, once *sync.Once, wg *sync.WaitGroup) 
 		deadline := time.Now().Add(5 * time.Second)
 		for s.serverLock.TryRLock() {
 			s.serverLock.RUnlock()
+
+			select {
+			case <-finished:
+				return
+			default:
+			}
+
 			if time.Now().After(deadline) {
 				t.Error("the writer has not started waiting for the lock")
 
@@ -119,6 +131,15 @@ func TestDemoR4_BlockedHostWhileWriterWaits(t *testing.T) {
 		SafeBrowsingCacheSize: 1000,
 		CacheTime:             30,
 	})
+
+	// The replacement host is looked up through the proxy.
+	s.conf.UpstreamConfig.Upstreams = []upstream.Upstream{&aghtest.UpstreamMock{
+		OnAddress: func() (addr string) { return "upstream.example" },
+		OnExchange: func(req *dns.Msg) (resp *dns.Msg, err error) {
+			return (&dns.Msg{}).SetReply(req), nil
+		},
+		OnClose: func() (err error) { return nil },
+	}}
 
 	once, wg := &sync.Once{}, &sync.WaitGroup{}
 	checker.onCheck = func() { demoR4Writer(t, s, once, wg) }
